@@ -32,10 +32,29 @@ pub fn roundtrip_bytes(format: Format, game: truth::Game, maps: &[String], bytes
             if b2 == bytes { Sexp::app("pass", vec![Sexp::int(bytes.len() as i64)]) }
             else {
                 let off = b2.iter().zip(bytes.iter()).position(|(a, b)| a != b).unwrap_or(b2.len().min(bytes.len()));
-                fail(format!("roundtrip-bytes-differ {}", format.name()), format!("{} opts={optbits} width={width}: first difference at offset {off} (len {} vs {}); text: {}", game, bytes.len(), b2.len(), text.chars().take(600).collect::<String>()))
+                // known cause: a conditional jump between two literals (`unless (1) { }` compiles to a jump comparing
+                // 1 and 0) decompiles to `if (1 == 0)`, which const folding turns into another jump opcode
+                let sig = if has_constant_condition(&text) { format!("roundtrip-bytes-differ constant-condition-jump") } else { format!("roundtrip-bytes-differ {}", format.name()) };
+                fail(sig, format!("{} opts={optbits} width={width}: first difference at offset {off} (len {} vs {}); text: {}", game, bytes.len(), b2.len(), text.chars().take(600).collect::<String>()))
             }
         },
     }
+}
+
+/// does the text contain `if|unless|while (LIT op LIT)` with two numeric literals?
+fn has_constant_condition(text: &str) -> bool {
+    for kw in ["if (", "unless (", "while ("] {
+        let mut rest = text;
+        while let Some(p) = rest.find(kw) {
+            let after = &rest[p + kw.len()..];
+            let cond = after.split(')').next().unwrap_or("");
+            let toks: Vec<&str> = cond.split_whitespace().collect();
+            let is_lit = |t: &str| t.trim_start_matches('-').parse::<f64>().is_ok() || t.trim_start_matches('-').starts_with("0x");
+            if toks.len() == 3 && is_lit(toks[0]) && is_lit(toks[2]) && matches!(toks[1], "==" | "!=" | "<" | "<=" | ">" | ">=") { return true; }
+            rest = after;
+        }
+    }
+    false
 }
 
 /// user mapfile adding aliases and enums (names must be transparent to the round trip)
